@@ -108,12 +108,24 @@ class ExprMixin:
             return h[key]
         if key not in self.heap0:
             sch = SCHEMA.get(obj.cls)
+            if sch is not None and name not in sch:
+                self.adopt_field(obj.cls, name)
             if sch is None or name not in sch:
                 raise Unsupported(f"field {obj.cls}.{name} not in the heap model")
             self.heap0[key] = self.sym_for_type(sch[name], f"{obj.ref}.{name}")
         return self.heap0[key]
 
+    def adopt_field(self, cls, name):
+        from .schema import infer_field_type
+
+        ty = infer_field_type(cls, name)
+        if ty:
+            SCHEMA[cls][name] = ty
+            self.assumption_log.add(f"field {cls}.{name} is not in the heap model; adopted as `{ty}` from its literal initialiser in __init__, unconstrained at entry")
+
     def set_field(self, obj: VObj, name: str, val):
+        if isinstance(obj, VObj) and obj.cls in SCHEMA and name not in SCHEMA[obj.cls]:
+            self.adopt_field(obj.cls, name)
         if isinstance(obj, VObj) and obj.cls in SCHEMA and name not in SCHEMA[obj.cls]:
             raise Unsupported(f"store to unknown field {obj.cls}.{name}")
         self.heap[(obj.ref, name)] = val
@@ -582,6 +594,10 @@ class ExprMixin:
                 return self.get_field(base, attr, self.use_old)
             if base.cls.startswith("<"):
                 return VFunc("method", attr, base)
+            if base.cls in CLASS_MODULE and base.cls in SCHEMA and not self.method_qualname(base.cls, attr):
+                self.adopt_field(base.cls, attr)
+                if attr in SCHEMA[base.cls]:
+                    return self.get_field(base, attr, self.use_old)
             if base.cls in CLASS_MODULE:
                 return VFunc("method", attr, base)
             raise Unsupported(f"attribute {attr} of {base!r}")
